@@ -5,9 +5,12 @@
 //   blocks   <parent index>;...          block k (k = 1..); block 0 is the genesis block
 //   changes  s<blk>,<delay>,<auth id>    scheduled change announced in block <blk>
 //            f<blk>,<delay>,<auth id>,<best finalized number>    forced change
-//            (at most one of each kind per block; as in BlockImportHandler.HandleDigests a
-//             scheduled change is ignored when the block also carries a forced change)
-//   events   i<blk>  import: BlockState.AddBlock, HandleGRANDPADigest, ApplyForcedChanges
+//            (at most one of each kind per block; BlockImportHandler.HandleDigests ignores a
+//             scheduled change when the block also carries a forced change)
+//   events   i<blk>  import, as core.Service.handleBlock does: BlockState.AddBlock, then
+//                    digest.BlockImportHandler.HandleDigests on the header (which carries the
+//                    announcements as real GRANDPA consensus digests, scheduled before forced),
+//                    then ApplyForcedChanges
 //            f<blk>  finalise: BlockState.SetFinalisedHash, ApplyScheduledChanges
 //   The case stops after the first event that returns an error.
 // observed: per executed event seven tokens
@@ -29,9 +32,11 @@ import (
 	"strings"
 	"testing"
 
+	"github.com/ChainSafe/gossamer/dot/digest"
 	"github.com/ChainSafe/gossamer/dot/types"
 	"github.com/ChainSafe/gossamer/internal/database"
 	"github.com/ChainSafe/gossamer/lib/common"
+	"github.com/ChainSafe/gossamer/pkg/scale"
 	"github.com/ChainSafe/gossamer/pkg/trie"
 	vu "github.com/ChainSafe/gossamer/internal/verifutil"
 )
@@ -40,13 +45,16 @@ type c23Telemetry struct{}
 
 func (c23Telemetry) SendMessage(_ json.Marshaler) {}
 
-func c23Header(parent common.Hash, number uint, salt uint64) *types.Header {
+func c23Header(parent common.Hash, number uint, salt uint64, extra []types.ConsensusDigest) *types.Header {
 	d := types.NewDigest()
 	pd, err := types.NewBabePrimaryPreDigest(0, uint64(number)+1, [32]byte{}, [64]byte{}).ToPreRuntimeDigest()
 	if err != nil {
 		panic(err)
 	}
 	d.Add(*pd)
+	for _, cd := range extra {
+		d.Add(cd)
+	}
 	var er common.Hash
 	for i := 0; i < 8; i++ {
 		er[i] = byte(salt >> (8 * i))
@@ -210,6 +218,7 @@ func c23Run(in string) string {
 	if err != nil {
 		return "err:grandpastate"
 	}
+	importHandler := digest.NewBlockImportHandler(nil, gs)
 	blocks := c23List(f[1])
 	nb := len(blocks)
 	parent := make([]int, nb+1)
@@ -340,27 +349,36 @@ func c23Run(in string) string {
 			if headers[k] != nil || headers[parent[k]] == nil {
 				return "err:badevent"
 			}
-			h := c23Header(headers[parent[k]].Hash(), uint(num[k]), uint64(k))
+			var extra []types.ConsensusDigest
+			addDigest := func(v any) bool {
+				dg := types.NewGrandpaConsensusDigest()
+				if err := dg.SetValue(v); err != nil {
+					return false
+				}
+				enc, err := scale.Marshal(dg)
+				if err != nil {
+					return false
+				}
+				extra = append(extra, types.ConsensusDigest{ConsensusEngineID: types.GrandpaEngineID, Data: enc})
+				return true
+			}
+			if c, ok := sched[k]; ok {
+				if !addDigest(types.GrandpaScheduledChange{Auths: c23Auths(c.auth), Delay: uint32(c.delay)}) {
+					return "err:setvalue"
+				}
+			}
+			if c, ok := forced[k]; ok {
+				if !addDigest(types.GrandpaForcedChange{BestFinalizedBlock: uint32(c.bestFin), Auths: c23Auths(c.auth), Delay: uint32(c.delay)}) {
+					return "err:setvalue"
+				}
+			}
+			h := c23Header(headers[parent[k]].Hash(), uint(num[k]), uint64(k), extra)
 			if err := bs.AddBlock(&types.Block{Header: *h, Body: types.Body{}}); err != nil {
 				return "err:addblock"
 			}
 			headers[k] = h
-			dg := types.NewGrandpaConsensusDigest()
-			has := false
-			if c, ok := forced[k]; ok {
-				has = true
-				err = dg.SetValue(types.GrandpaForcedChange{BestFinalizedBlock: uint32(c.bestFin), Auths: c23Auths(c.auth), Delay: uint32(c.delay)})
-			} else if c, ok := sched[k]; ok {
-				has = true
-				err = dg.SetValue(types.GrandpaScheduledChange{Auths: c23Auths(c.auth), Delay: uint32(c.delay)})
-			}
-			if err != nil {
-				return "err:setvalue"
-			}
-			if has {
-				if err := gs.HandleGRANDPADigest(h, dg); err != nil {
-					res = "err:digest"
-				}
+			if err := importHandler.HandleDigests(h); err != nil {
+				res = "err:digest"
 			}
 			if res == "ok" {
 				if err := gs.ApplyForcedChanges(h); err != nil {
